@@ -150,7 +150,7 @@ def _rounding(draw):
     return {"kind": "standalone", "work": work, "edges": edges, "order": order, "hist": hist}
 
 
-CFG_SIM = gen.Cfg(warm=4, due=True, kinds=[0], facilities=False, max_workers=3, min_tasks=2, max_tasks=8, max_time=[40], p_auto=10)
+CFG_SIM = gen.Cfg(warm_modes=["morph", "graft", "append", "nolog"], warm=3, due=True, kinds=[0], facilities=False, max_workers=3, min_tasks=2, max_tasks=8, max_time=[40], p_auto=10)
 
 
 @st.composite
@@ -232,6 +232,8 @@ def check(case):
         last = None
         changed = False
         for s, d in enumerate(sim.steps):
+            if "updated" not in d:
+                continue  # steps of an earlier, appended-to run
             sn = d["updated"]
             rem = [sn["tasks"][S.tid(i)][T_REM] for i in range(n)]
             g = [(sn["tasks"][S.tid(i)][T_EST], sn["tasks"][S.tid(i)][T_EFT], sn["tasks"][S.tid(i)][T_LST], sn["tasks"][S.tid(i)][T_LFT]) for i in range(n)]
